@@ -134,7 +134,35 @@ func (fe *FuncEnc) bindParams(callee *ssa.Function, args []Term) (map[string]Ter
 			tm[p.Name()] = p.Type()
 		}
 	}
+	fe.eng.aliasRecv(callee, m, tm)
 	return m, tm
+}
+
+// aliasRecv: the receiver name written in the contract header stays usable in the clauses when the code has renamed the
+// receiver since.
+func (e *Engine) aliasRecv(fn *ssa.Function, params map[string]Term, ptypes map[string]types.Type) {
+	con := e.contracts[e.fnames[fn]]
+	if con == nil || con.RecvName == "" || fn.Signature.Recv() == nil || len(fn.Params) == 0 {
+		return
+	}
+	cur := fn.Params[0].Name()
+	if cur == con.RecvName {
+		return
+	}
+	if _, clash := params[con.RecvName]; clash {
+		if ptypes != nil {
+			if _, has := ptypes[con.RecvName]; !has {
+				ptypes[con.RecvName] = fn.Params[0].Type()
+			}
+		}
+		return
+	}
+	if t, ok := params[cur]; ok {
+		params[con.RecvName] = t
+		if ptypes != nil {
+			ptypes[con.RecvName] = fn.Params[0].Type()
+		}
+	}
 }
 
 func (fe *FuncEnc) inline(f *Frame, callee *ssa.Function, name string, args []Term, st *State, path Term, pos token.Pos) []Term {
@@ -148,6 +176,7 @@ func (fe *FuncEnc) inline(f *Frame, callee *ssa.Function, name string, args []Te
 		nf.params[p.Name()] = args[i]
 		nf.ptypes[p.Name()] = p.Type()
 	}
+	fe.eng.aliasRecv(callee, nf.params, nf.ptypes)
 	nf.entry = st.clone()
 	saved := fe.cur
 	fe.cur = nf
@@ -312,6 +341,7 @@ func (fe *FuncEnc) callByContract(f *Frame, callee *ssa.Function, name string, c
 	for _, p := range callee.Params {
 		cf.ptypes[p.Name()] = p.Type()
 	}
+	fe.eng.aliasRecv(callee, cf.params, cf.ptypes)
 	for _, rq := range con.Requires {
 		t := fe.evalClause(cf, rq, pre, pre, nil, nil, pos)
 		fe.emit("pre", fe.srcLabel(pos, "call")+"."+rq.Label, path, t, name+" requires "+rq.Text, pos)
@@ -352,7 +382,7 @@ func (fe *FuncEnc) callByContract(f *Frame, callee *ssa.Function, name string, c
 			n0 := len(fe.obls)
 			fe.checkOnly = true
 			defer func() { fe.checkOnly = false }()
-			fe.emit("dec.call", fe.srcLabel(pos, "call")+".reentry", path, goal, "the nesting depth of "+fe.name+" through "+name+" is bounded: the declared measure has decreased when "+name+" is entered", pos)
+			fe.emit("dec.call", short+".reentry", path, goal, "the nesting depth of "+fe.name+" through "+name+" is bounded: the declared measure has decreased when "+name+" is entered", pos)
 			for _, o := range fe.obls[n0:] {
 				o.Props = []string{"C07"} // "never dies with a fatal error, whatever nesting of calls the program uses"
 			}
